@@ -506,6 +506,38 @@ func checkC01(c *Ctx) {
 
 	// ================= C01.5 (collected together with the range constants)
 	r.Rule("C01.5", "443 fallback for old clients / non-randomising subnets; seeded port draws use the seed parameter and are gated by the randomise flag", 12)
+	// absent parameters stay absent: a registration without transport parameters is one whose client dials 443 (the
+	// client's own default when it SENDS parameters is a different thing); the station side must not invent any
+	for _, tp := range []string{"min", "prefix", "obfs4"} {
+		f := c.P.Func(repoMod+"/pkg/transports/wrapping/"+tp, "Transport", "ParseParams")
+		if f == nil || f.Blocks == nil || len(f.Params) < 3 {
+			continue
+		}
+		nilEdges := edgesEstablishing(f, atomMatcher(Atom{"(" + orderEq("nil", P(f, 2)) + ")", true}))
+		okk := len(nilEdges) > 0
+		got := ""
+		for e := range nilEdges {
+			for _, v := range returnedAlong(f, f.Blocks[e.from], f.Blocks[e.from].Succs[e.slot], 0) {
+				if cst, isC := v.(*ssa.Const); !isC || cst.Value != nil {
+					okk = false
+					got = pathOf(v)
+				}
+			}
+		}
+		// ... and the test comes first: nothing else decides before it
+		if okk {
+			for e := range nilEdges {
+				if f.Blocks[e.from] != f.Blocks[0] {
+					if hit, _ := reach(f, nil, isReturn, func(in ssa.Instruction) bool { return in.Block() == f.Blocks[e.from] }, nil); hit {
+						okk = false
+						got = "a return precedes the data == nil test"
+					}
+				}
+			}
+		}
+		r.Check(okk, "C01.5", tp+" ParseParams: absent parameters yield nil parameters", f.Pos(), fnName(f), "from data == nil every return is (nil, …)",
+			"for a registration without transport parameters the station builds parameters of its own ("+firstN(got, 60)+"): GetDstPort's params == nil -> 443 rule can no longer apply, the station expects a seeded port while the client - which sent no parameters - dials 443")
+	}
 	var tps []string
 	for p := range ranges {
 		tps = append(tps, p)
@@ -628,6 +660,9 @@ func checkC01(c *Ctx) {
 
 	// ================= C01.6 the derivation depends on its inputs only (not on earlier selections / shared caches)
 	checkSelectionPurity(c, "C01.6", "pkg/phantoms")
+	// ---- C01.7 the base the offset is added to is the masked network, as in every released client
+	r.Rule("C01.7", "subnets are net.ParseCIDR networks or built from masked addresses", 1)
+	checkMaskedBase(c, "C01.7", "pkg/phantoms")
 
 	// ================= C01.4 draw order
 	r.Rule("C01.4", "published draw order from each derivation stream; legacy pre-draw gated by libver < 4; transport stream consumed once", 8)
